@@ -20,10 +20,10 @@ from harness import vsign, dmt
 # ---------------------------------------------------------------------------
 # verify_delegation
 
-def build_vd(eng, ns, R=2, M=1, N=1, junk=True, thr_kinds=('int',), modes=(True, False), name_any=False, Loh=2):
+def build_vd(eng, ns, R=2, M=1, N=1, junk=True, thr_kinds=('int',), modes=(True, False), name_any=False, Loh=2, u_timestamp=False):
     t = T(eng, ns=ns)
     Td = dmt.dm_template(t, 'T', R=R, M=M, thr_kinds=thr_kinds)
-    Ud = dmt.dm_template(t, 'U', R=1, M=1, optional_delegations=True)
+    Ud = dmt.dm_template(t, 'U', R=1, M=1, optional_delegations=True, extra_field=u_timestamp)
     sigs, real = vsign.make_sigs(t, N, Loh=Loh, junk=junk)
     Tm = {'signatures': {}, 'signed': Td['signed']}
     Um = {'signatures': sigs, 'signed': Ud['signed']}
@@ -510,6 +510,11 @@ def prove_checker_lemmas(res, module, units):
         ok = bool(rs) and u.name not in bad_units and '?' not in bad_units and '*' not in bad_units \
             and all(ob['status'] == 'unsat' for r in rs for ob in r.get('obligations', ()))
         ns, w = u.name.split(':')[2:4]
+        kinds = {r.get('retkind') for r in rs if r.get('retkind')}
+        if len(kinds) != 1 or kinds & {'other'}:
+            ok = False          # the checker's return value is not uniform: no substitution
+        else:
+            dmt.RETKIND[(ns, w)] = kinds.pop()
         dmt.PROVED[(ns, w)] = ok
         res.lemmas.append(dict(lemma=f'checkformat_delegating_metadata accepts the {w} template of unit {ns} <=> it is well formed (C14 on this template)',
                                name=u.name, proved=ok, paths=len(rs)))
